@@ -2,8 +2,9 @@ import EgoVerif.Common.Drv
 import EgoVerif.C22.Model
 /- line protocol (all numbers decimal; strings are interned by the harness, 0 = empty):
 
-   init <now> <audRequired 0|1> <userClaim s|e|p|o> <fixed 0|1> <key>*      → "-"
-        key = <kid>:<useOK 0|1>:<ktyOK 0|1>:<id>
+   init <now> <audRequired 0|1> <userClaim s|e|p|o> <fixed 0|1> <jwksTTL> <key>*   → "-"
+        key = <kid>:<useOK 0|1>:<ktyOK 0|1>:<id>       (the document the provider serves at start-up)
+   keys <key>*          the provider replaces its JWKS document                    → "-"
    p <tid> <parseOK 0|1> <alg r|e|o> <kid> <sigBy (0 = none)> <exp> <nbf> <issOK> <audOK> <jti>
      <sub> <email> <pref> <client>                                         → ok u<n> | ok c<n> | revoked | invalid | expired | noclaim
    rev <jti> | unrev <jti> | flush | adv <dt> | purge | evict <tid>        → "-"
@@ -14,6 +15,7 @@ structure DSt where
   cfg : Cfg
   jwks : List Jwk
   fixed : Bool
+  ttl : Nat
   st : St
 
 def b01 (s : String) : Bool := s == "1"
@@ -43,21 +45,25 @@ def showRes : Res → String
 def nats (l : List String) : Option (List Nat) := l.mapM (·.toNat?)
 
 def opLine (d : DSt) (o : Op) : DSt × String :=
-  let W : World := ⟨d.cfg, d.jwks, fun _ => ⟨false, .other, 0, none, 0, 0, false, false, 0, 0, 0, 0, 0⟩, d.fixed⟩
+  let W : World := ⟨d.cfg, d.jwks, fun _ => ⟨false, .other, 0, none, 0, 0, false, false, 0, 0, 0, 0, 0⟩, d.fixed, d.ttl⟩
   ({ d with st := (step W d.st o).1 }, "-")
 
 def handle (d : DSt) (line : String) : DSt × String :=
   match fields line with
-  | "init" :: now :: aud :: claim :: fx :: keys =>
-    match now.toNat?, keys.mapM parseKey with
-    | some t0, some ks => (⟨⟨true, b01 aud, parseClaim claim⟩, ks, b01 fx, init t0⟩, "-")
-    | _, _ => (d, "bad-input")
+  | "init" :: now :: aud :: claim :: fx :: ttl :: keys =>
+    match now.toNat?, ttl.toNat?, keys.mapM parseKey with
+    | some t0, some ttl, some ks => (⟨⟨true, b01 aud, parseClaim claim⟩, ks, b01 fx, ttl, init t0 ks⟩, "-")
+    | _, _, _ => (d, "bad-input")
+  | "keys" :: keys =>
+    match keys.mapM parseKey with
+    | some ks => opLine d (.setKeys ks)
+    | none => (d, "bad-input")
   | ["p", tid, pok, alg, kid, sigBy, exp, nbf, iss, aud, jti, sub, email, pref, client] =>
     match nats [tid, kid, sigBy, exp, nbf, jti, sub, email, pref, client] with
     | some [tid, kid, sigBy, exp, nbf, jti, sub, email, pref, client] =>
       let t : Tok := ⟨b01 pok, parseAlg alg, kid, if sigBy = 0 then none else some sigBy, exp, nbf,
                       b01 iss, b01 aud, jti, sub, email, pref, client⟩
-      let W : World := ⟨d.cfg, d.jwks, fun _ => t, d.fixed⟩
+      let W : World := ⟨d.cfg, d.jwks, fun _ => t, d.fixed, d.ttl⟩
       let r := present W d.st tid
       ({ d with st := r.1 }, showRes r.2)
     | _ => (d, "bad-input")
@@ -70,6 +76,6 @@ def handle (d : DSt) (line : String) : DSt × String :=
   | _ => (d, "bad-op")
 
 def drv : Drv :=
-  { σ := DSt, init := ⟨⟨true, false, .sub⟩, [], true, init 0⟩, step := handle }
+  { σ := DSt, init := ⟨⟨true, false, .sub⟩, [], true, 0, init 0 []⟩, step := handle }
 
 end EgoVerif.C22
